@@ -14,7 +14,7 @@ RUNFUN = 'run'
 COQ_TARGETS = ['theories/Properties/C14.vo', 'theories/Extract/RunC14.vo']
 DESIGN_REF = 'DESIGN.md section 4.1 (generated tables) and section 6, C14'
 TECHNIQUE = ('Coq proof about GENERATED tables (16 wavelength factors observed through the real classes, 9 flux '
-             'conversions translated from the source of Photlam/Flam/Wlam.to by a fail-closed ast translator, regenerated '
+             'conversions translated from the source of Photlam/Flam/Wlam.to by a fail-closed ast translator - a source form it refuses falls back to the last successfully translated terms, validated exactly against the implementation -, regenerated '
              'and re-proved on every check: finite vm_compute in Q for the factors, `field` over R for the flux terms, '
              'induction over lists for Spectrum.to and the trapezoid integral, Planck/vegaflux/Blackbody factored through '
              'the SI function) + execution of the extracted model on exact rationals against lentil.radiometry + '
@@ -930,27 +930,46 @@ def extra(tier, rng):
     rep = {}
     viol = []
     H, Cc, Kb = float(R.H), float(R.C), float(R.K)
-    # (1) the translator: the emitted terms, evaluated exactly, against the implementation (all 9 cells)
+    # (1) the flux terms the proofs are about (translated now, or retained from the last successful translation
+    #     when the translator refused the form of the source), evaluated exactly, against the implementation:
+    #     all 9 cells, >= 200 random (flux, wave) points each plus edge magnitudes 1e-12 .. 1e12
     try:
         t = table()
     except G.GenError as e:
         t = None
-        rep['translator_crosscheck'] = f'skipped: generator refused ({e})'
+        rep['translation'] = f'generator failed and no retained table: {e}'
     if t is not None:
         n = 0
+        bad_cells = {}
+        mags = [Fraction(10) ** k for k in range(-12, 13, 2)]
         for a in FNAMES:
             for b in FNAMES:
-                for _ in range(4 if tier == 'quick' else 40):
-                    f = Fraction(rng.randint(1, 10 ** 6), rng.randint(1, 10 ** 6)) * Fraction(10) ** rng.randint(-15, 15)
-                    w = Fraction(rng.randint(1, 10 ** 5), rng.randint(1, 10 ** 5)) * Fraction(10) ** rng.randint(-8, -5)
-                    got = float(R.Unit(a).to(float(f), b, float(w)))
-                    exp = G.eval_expr(t['f'][(FCON[a], FCON[b])], Fraction(float(f)), Fraction(float(w)), t['c']['H'], t['c']['C'])
+                pts = []
+                for _ in range(200):
+                    pts.append((Fraction(rng.randint(1, 10 ** 6), rng.randint(1, 10 ** 6)) * Fraction(10) ** rng.randint(-15, 15),
+                                Fraction(rng.randint(1, 10 ** 5), rng.randint(1, 10 ** 5)) * Fraction(10) ** rng.randint(-10, -3)))
+                for m in mags:
+                    pts.append((m, Fraction(5, 10 ** 7)))
+                    pts.append((Fraction(3), m))
+                    pts.append((m, 1 / m))
+                for f, w in pts:
+                    ff, wf_ = float(f), float(w)
+                    got = float(R.Unit(a).to(ff, b, wf_))
+                    exp = G.eval_expr(t['f'][(FCON[a], FCON[b])], Fraction(ff), Fraction(wf_), t['c']['H'], t['c']['C'])
                     n += 1
-                    if not close(got, exp):
-                        viol.append({'case': {'op': 'flux3', 'a': a, 'b': b, 'c': a, 'flux': float(f), 'wave': float(w)},
-                                     'impl': got, 'what': f'translated term for {a}->{b} evaluates to {float(exp)!r}, '
-                                                          f'implementation returns {got!r} (translator/tie broken)'})
-        rep['translator_crosscheck'] = {'cells': 9, 'evaluations': n, 'tolerance': TOL}
+                    if not close(got, exp) and (a, b) not in bad_cells:
+                        bad_cells[(a, b)] = (ff, wf_)
+                        viol.append({'case': {'op': 'flux3', 'a': a, 'b': b, 'c': a, 'flux': ff, 'wave': wf_},
+                                     'impl': got, 'what': f'{a}->{b} of flux {ff!r} at wave {wf_!r} m: implementation returns {got!r}, the '
+                                                          f'conversion term the proofs are about ('
+                                                          + ('translated from this source' if t['status']['translated'] else 'retained from the last successful translation')
+                                                          + f') evaluates to {float(exp)!r}'})
+        if t['status']['translated']:
+            rep['translation'] = f'translated from source; terms validated on {n} points'
+        else:
+            rep['translation'] = (f'refused ({t["status"]["reason"]}), retained table '
+                                  + (f'validated on {n} points' if not bad_cells else f'DISAGREES with the implementation in cells {sorted(bad_cells)}'))
+        rep['translator_crosscheck'] = {'cells': 9, 'evaluations': n, 'tolerance': TOL, 'disagreeing_cells': len(bad_cells)}
         # vegaflux through the extracted model (needs the SI observation of the implementation)
         try:
             binp = C.build_model(MODEL)
